@@ -3,6 +3,7 @@ package hx
 
 import (
 	"context"
+	"encoding/json"
 	"fmt"
 	"math/big"
 	"runtime/debug"
@@ -190,8 +191,7 @@ func normalise(res numscript.ExecutionResult, err error, out *Real) {
 	out.TxMetaJSON = map[string]string{}
 	for k, v := range res.Metadata {
 		out.TxMeta[k] = fmt.Sprintf("%T|%s", v, v.String())
-		if mj, ok := v.(interface{ MarshalJSON() ([]byte, error) }); ok {
-			b, _ := mj.MarshalJSON()
+		if b, err := json.Marshal(v); err == nil {
 			out.TxMetaJSON[k] = string(b)
 		}
 	}
